@@ -97,20 +97,21 @@ const (
 func vfFillerKey(i int) string { return fmt.Sprintf("/w/f%03d", i) }
 
 type vfHistory struct {
-	Steps        []vfStep
-	PullMs       int
-	LagMs        [4]int // per adapter consumer lag
-	Fault        string // none | restart | cut | cutcompact
-	ShortTimeout bool   // the syncing member has cluster-request-timeout 500ms instead of 10s
-	OutageMs     int
-	TailBurst    int
-	Wide         int // number of filler keys under the watched prefix (0 = narrow)
-	WideBurst    int
-	k0AtFault    bool
-	states       []map[string]string
-	nSameVal     int
-	nRecreate    int
-	nTxn         int
+	Steps              []vfStep
+	PullMs             int
+	LagMs              [4]int // per adapter consumer lag
+	Fault              string // none | restart | cut | cutcompact
+	ShortTimeout       bool   // the syncing member has cluster-request-timeout 500ms instead of 10s
+	OutageMs           int
+	TailBurst          int
+	RecreateUnobserved bool
+	Wide               int // number of filler keys under the watched prefix (0 = narrow)
+	WideBurst          int
+	k0AtFault          bool
+	states             []map[string]string
+	nSameVal           int
+	nRecreate          int
+	nTxn               int
 }
 
 func vfCopyState(m map[string]string) map[string]string {
@@ -299,18 +300,59 @@ func vfGenHistory(rt *rapid.T) *vfHistory {
 		h.OutageMs = rapid.SampledFrom([]int{0, 600, 1200}).Draw(rt, "outageMs")
 		h.Steps = append(h.Steps, vfStep{Op: "stop"}, vfStep{Op: "pause", PauseMs: h.OutageMs}, vfStep{Op: "start"})
 	case "cut", "cutcompact":
+		push := func(kv vfKV, note string) {
+			cur = vfCopyState(cur)
+			if kv.Val == nil {
+				delete(cur, kv.Key)
+			} else {
+				cur[kv.Key] = *kv.Val
+			}
+			h.states = append(h.states, cur)
+			h.Steps = append(h.Steps, vfStep{Op: "write", KVs: []vfKV{kv}, Note: note, state: len(h.states) - 1})
+		}
+		// "recreate unobserved" (half of the partitions): the watched single key is (re)created, so
+		// that the copy the syncer holds has etcd version 1; inside the partition it is deleted and
+		// created again with ANOTHER value (etcd version 1 again, nothing else touched), and after
+		// the partition nothing is written any more. The syncer never sees the deleted state; the
+		// only difference to what it holds is the value.
+		h.RecreateUnobserved = rapid.Bool().Draw(rt, "recreateUnobserved")
+		if h.RecreateUnobserved {
+			if _, ok := cur["/w/k0"]; ok {
+				push(vfKV{"/w/k0", nil}, "")
+			}
+			v := rapid.SampledFrom(vfVals).Draw(rt, "ruVal")
+			push(vfKV{"/w/k0", &v}, "etcd version 1")
+			h.Steps = append(h.Steps, vfStep{Op: "pause", PauseMs: 300})
+			h.k0AtFault = true
+		}
 		h.Steps = append(h.Steps, vfStep{Op: "cut"})
 		minCut := 0
 		if h.Fault == "cutcompact" {
 			minCut = 1 // the forced watch-cancel is only interesting with changes the watch misses
 		}
-		cur = vfGenWrites(rt, h, cur, rapid.IntRange(minCut, 6).Draw(rt, "nCut"), "cut.")
+		if h.RecreateUnobserved {
+			old := cur["/w/k0"]
+			v2 := vfVals[0]
+			for i, x := range vfVals {
+				if x == old {
+					v2 = vfVals[(i+1)%len(vfVals)]
+				}
+			}
+			h.nRecreate++
+			push(vfKV{"/w/k0", nil}, "delete-then-recreate, unobserved")
+			push(vfKV{"/w/k0", &v2}, "recreate with another value, etcd version 1 again")
+		} else {
+			cur = vfGenWrites(rt, h, cur, rapid.IntRange(minCut, 6).Draw(rt, "nCut"), "cut.")
+		}
 		if h.Fault == "cutcompact" {
 			h.Steps = append(h.Steps, vfStep{Op: "compact"})
 		}
 		h.OutageMs = rapid.SampledFrom([]int{0, 150, 700, 1300}).Draw(rt, "cutMs")
 		h.Steps = append(h.Steps, vfStep{Op: "pause", PauseMs: h.OutageMs})
 		h.Steps = append(h.Steps, vfStep{Op: "heal"})
+	}
+	if h.RecreateUnobserved {
+		return h // then quiet
 	}
 	cur = vfGenWrites(rt, h, cur, rapid.IntRange(0, 18).Draw(rt, "nB"), "b.")
 	// tail burst: more back-to-back changes of the watched single key than a syncer channel can
@@ -778,6 +820,9 @@ func TestVerifC19Syncer(t *testing.T) {
 		}
 		if h.nSameVal > 0 {
 			vf.Class("has-same-value-put")
+		}
+		if h.RecreateUnobserved {
+			vf.Class("recreate-unobserved-in-partition-same-etcd-version-other-value")
 		}
 		if h.Wide > 0 {
 			vf.Class("wide-prefix>128-keys-with-first/middle/last-key-transactions")
